@@ -5,6 +5,8 @@
 -/
 import N2V.Lemmas.SchedAcct
 import N2V.Lemmas.SchedStep
+import N2V.Lemmas.SchedClosure
+import N2V.Lemmas.TraceFacts
 namespace N2V.Sched
 
 /-- Nothing queued, nothing running. -/
@@ -290,32 +292,41 @@ theorem readyLoop_inr_ne {E : Type} {g : Graph} (c : Choices E) : ∀ (fuel : Na
 /-- Every `Done` build is known to the environment (e.g. its outputs are in the stat cache). -/
 def JD {E : Type} (D : E → Nat → Prop) (s : S) (e : E) : Prop := ∀ p, s.st p = .done → D e p
 
-/-- What the check is assumed to do: given that the producers of the build's ordering inputs are
-    known, it answers "clean", keeps `P`, makes the build known and forgets nothing. -/
-def CleanCheck {E : Type} (g : Graph) (c : Choices E) (P : E → Prop) (D : E → Nat → Prop) : Prop :=
-  ∀ e b, P e → (∀ f ∈ (g.build b).ordering, ∀ p, g.producer f = some p → D e p) →
+/-- Everything a gated build transitively depends on (through ordering inputs) is `Done`. -/
+theorem Inv.anc_done {g : Graph} {par : Nat} {s : S} (inv : Inv g par s) {b p : Nat} (ha : Anc g b p)
+    (hg : gated (s.st b)) : s.st p = .done := by
+  induction ha with
+  | direct hf hp => exact inv.ordered _ hg _ hf _ hp
+  | step _ _ ih1 ih2 => exact ih2 (by rw [ih1 hg]; simp [gated])
+
+/-- What the check is assumed to do on the builds in `W`: given that every build the step
+    transitively depends on (through ordering inputs) is known, it answers "clean", keeps `P`,
+    makes the build known and forgets nothing. -/
+def CleanCheck {E : Type} (g : Graph) (c : Choices E) (P : E → Prop) (D : E → Nat → Prop) (W : Nat → Prop) : Prop :=
+  ∀ e b, P e → W b → (∀ p, Anc g b p → D e p) →
     (c.check e b).1 = some false ∧ P (c.check e b).2 ∧ D (c.check e b).2 b ∧ ∀ p, D e p → D (c.check e b).2 p
 
 theorem readyLoop_quiet2 {E : Type} {g : Graph} {par : Nat} (c : Choices E) (P : E → Prop) (D : E → Nat → Prop)
-    (hD : CleanCheck g c P D) (fuel : Nat) :
+    (W : Nat → Prop) (hD : CleanCheck g c P D W) (fuel : Nat) :
     ∀ (s : S) (e : E) (perms : List (List Nat)) (p : Bool), Inv g par s → Quiet s → P e → JD D s e →
+    (∀ b, s.st b ≠ .unknown → W b) →
     match readyLoop g c fuel s e perms p with
     | .inl (s', e', _, _) => Inv g par s' ∧ Quiet s' ∧ P e' ∧ JD D s' e'
     | .inr (se, e', _) => Quiet se ∧ P e' := by
   induction fuel with
-  | zero => intro s e perms p _ q pe _; simp only [readyLoop]; exact ⟨q, pe⟩
+  | zero => intro s e perms p _ q pe _ _; simp only [readyLoop]; exact ⟨q, pe⟩
   | succ fuel ih =>
-    intro s e perms p inv q pe jd
+    intro s e perms p inv q pe jd hW
     unfold readyLoop
     cases hr : s.ready with
     | nil => simp only []; exact ⟨inv, q, pe, jd⟩
     | cons id rest =>
       simp only []
       have hstid : s.st id = .ready := inv.readySt id (by simp [hr])
-      have hprod : ∀ f ∈ (g.build id).ordering, ∀ p, g.producer f = some p → D e p := by
-        intro f hf p hp
-        exact jd p (inv.ordered id (Or.inl hstid) f hf p hp)
-      obtain ⟨hc, pe1, hdid, hmono⟩ := hD e id pe hprod
+      have hprod : ∀ p, Anc g id p → D e p := fun p ha => jd p (inv.anc_done ha (Or.inl hstid))
+      have hWid : W id := hW id (by rw [hstid]; simp)
+      have hid0 : ({ s with ready := rest } : S).st id ≠ .unknown := by show s.st id ≠ .unknown; rw [hstid]; simp
+      obtain ⟨hc, pe1, hdid, hmono⟩ := hD e id pe hWid hprod
       have q0 : Quiet { s with ready := rest } := ⟨q.run0, q.stq, q.pq⟩
       cases hchk : c.check e id with
       | mk d e1 =>
@@ -327,6 +338,7 @@ theorem readyLoop_quiet2 {E : Type} {g : Graph} {par : Nat} (c : Choices E) (P :
         | ok s1 =>
           simp only [resToRun]
           refine ih s1 e1 perms.tail true (clean_inv inv hr hrd) (readyDependents_quiet q0 hrd) pe1 ?_
+            (fun b hb => hW b (readyDependents_keeps hid0 hrd b hb))
           intro p hp
           rcases readyDependents_done_sub hrd p hp with rfl | h
           · exact hdid
@@ -338,16 +350,17 @@ theorem readyLoop_quiet2 {E : Type} {g : Graph} {par : Nat} (c : Choices E) (P :
         | fuel => simp only [resToRun]; exact ⟨q0, pe1⟩
 
 theorem runLoop_quiet2 {E : Type} {g : Graph} {par : Nat} (c : Choices E) (P : E → Prop) (D : E → Nat → Prop)
-    (hD : CleanCheck g c P D) (fuel : Nat) :
+    (W : Nat → Prop) (hD : CleanCheck g c P D W) (fuel : Nat) :
     ∀ (s : S) (e : E) (perms : List (List Nat)) (fin : List (Nat × Term)), Inv g par s → Quiet s → P e → JD D s e →
+    (∀ b, s.st b ≠ .unknown → W b) →
     Quiet (runLoop g par c fuel s e perms fin).s ∧ P (runLoop g par c fuel s e perms fin).e ∧
     Frame s (runLoop g par c fuel s e perms fin).s ∧ (runLoop g par c fuel s e perms fin).finishes = fin ∧
     ((runLoop g par c fuel s e perms fin).result = .ok true →
       Inv g par (runLoop g par c fuel s e perms fin).s ∧ JD D (runLoop g par c fuel s e perms fin).s (runLoop g par c fuel s e perms fin).e) := by
   induction fuel with
-  | zero => intro s e perms fin _ q pe _; exact ⟨q, pe, Frame.refl s, rfl, fun h => by simp [runLoop] at h⟩
+  | zero => intro s e perms fin _ q pe _ _; exact ⟨q, pe, Frame.refl s, rfl, fun h => by simp [runLoop] at h⟩
   | succ fuel ih =>
-    intro s e perms fin inv q pe jd
+    intro s e perms fin inv q pe jd hW
     unfold runLoop
     split
     · exact ⟨q, pe, Frame.refl s, rfl, fun _ => ⟨inv, jd⟩⟩
@@ -359,7 +372,8 @@ theorem runLoop_quiet2 {E : Type} {g : Graph} {par : Nat} (c : Choices E) (P : E
       have ju : JD D { s with trace := Ev.update (countsList s.counts) :: s.trace } e := jd
       rw [startLoop_quiet g.nBuilds _ false qu]
       simp only []
-      have hrl := readyLoop_quiet2 (g := g) (par := par) c P D hD (g.nBuilds + 1) _ e perms false iu qu pe ju
+      have hrl := readyLoop_quiet2 (g := g) (par := par) c P D W hD (g.nBuilds + 1) _ e perms false iu qu pe ju hW
+      have hkp := readyLoop_keeps (g := g) (par := par) c (g.nBuilds + 1) { s with trace := Ev.update (countsList s.counts) :: s.trace } e perms false iu
       have hfr := readyLoop_frm (g := g) c (g.nBuilds + 1) { s with trace := Ev.update (countsList s.counts) :: s.trace } e perms false
       cases hres : readyLoop g c (g.nBuilds + 1) { s with trace := Ev.update (countsList s.counts) :: s.trace } e perms false with
       | inr x =>
@@ -373,10 +387,10 @@ theorem runLoop_quiet2 {E : Type} {g : Graph} {par : Nat} (c : Choices E) (P : E
         exact hne h
       | inl x =>
         obtain ⟨s2, e2, perms2, p2⟩ := x
-        rw [hres] at hrl hfr
+        rw [hres] at hrl hfr hkp
         simp only [Bool.false_or]
         split
-        · obtain ⟨a1, a2, a3, a4, a5⟩ := ih s2 e2 perms2 fin hrl.1 hrl.2.1 hrl.2.2.1 hrl.2.2.2
+        · obtain ⟨a1, a2, a3, a4, a5⟩ := ih s2 e2 perms2 fin hrl.1 hrl.2.1 hrl.2.2.1 hrl.2.2.2 (fun b hb => hW b (hkp b hb))
           exact ⟨a1, a2, (fu.trans hfr).trans a3, a4, a5⟩
         · have hr0 : s2.running ≤ 0 := by rw [hrl.2.1.run0]; exact Int.le_refl 0
           rw [if_pos hr0]
